@@ -435,6 +435,11 @@ Torrent* Session::add_torrent(const TorrentSpec& spec_in) {
       uint64_t off = (uint64_t)pi * spec.piece_length;
       if (off < disk.size()) disk[off] = char(disk[off] ^ 0x5a);
     }
+    for (uint32_t pi : spec.junk_pieces) {
+      uint64_t off = (uint64_t)pi * spec.piece_length;
+      for (uint64_t k = off; k < off + spec.piece_length && k < disk.size(); k++)
+        disk[k] = char((unsigned char)t->content[k] ^ (unsigned char)(1 + k % 255));   // xor with a non-zero byte: differs everywhere
+    }
     uint64_t g = 0;
     for (size_t i = 0; i < spec.files.size(); i++) {
       auto& f = spec.files[i];
